@@ -281,7 +281,10 @@ class CallMixin:
         if len(args) != len(ps):
             raise ContractError(f"spec function {sf.name}: arity")
         if sf.pure:
-            return self.unfold_spec(st, sf, ps, args)
+            res = self.unfold_spec(st, sf, ps, args)
+            if isinstance(res, Z) and rt.kind == "ref" and res.t.kind == "ref" and rt.cls:
+                res = Z(rt, res.e)
+            return res
         terms, sorts = [], []
         for (p, t), a in zip(ps, args):
             terms += self.flat_terms(st, a, t)
@@ -500,6 +503,11 @@ class CallMixin:
             k = self.to_z(st, self.ev_spec(st, A[1]), T("str")).e
             v = self.to_dyn(st, self.ev_spec(st, A[2]))
             return Z(T("dyn"), smt.dyn_ctor("DDict")(z3.Store(smt.dyn_acc("DDict", 0, d), k, v)))
+        if name == "fn_name":
+            f = self.ev_spec(st, A[0])
+            if isinstance(f, Func):
+                return zstr((getattr(f, "decorated", None) or f.qualname).split(".")[-1])
+            raise ContractError("fn_name of a non-function")
         if name == "d_absent":
             return Z(T("dyn"), smt.dyn_ctor("DAbsent"))
         if name == "size":
@@ -555,8 +563,8 @@ class CallMixin:
         elif len(A) == 2:
             sort_hint = ast.literal_eval(A[0])
         t = self.resolve_T(parse_T(sort_hint))
-        st.ghost["__q"] = st.ghost.get("__q", 0) + 1
-        v = z3.Const(f"{nm}!q{st.ghost['__q']}", t.z3sort())
+        # the bound variable is named by nesting depth, so alpha-equivalent quantifiers are the same AST
+        v = z3.Const(f"{nm}!q{len(st.bound)}", t.z3sort())
         st.bound.append(v)
         try:
             body = self.truthy(st, self.eval_lambda_spec(st, lam, [Z(t, v)], st.frame))
@@ -574,7 +582,7 @@ class CallMixin:
         if isinstance(s, Z) and s.t.kind == "seq":
             et = s.t.args[0]
             xe = self.to_z(st, x, et).e
-            fn = smt.ufunc(f"seq_count.{et.kind}", s.e.sort(), xe.sort(), Int)
+            fn = smt.ufunc(f"seq_count.{et.kind}.{xe.sort().name()}", s.e.sort(), xe.sort(), Int)
             app = fn(s.e, xe)
             st.axioms.append(app >= 0)
             st.axioms.append(app <= z3.Length(s.e))
@@ -643,6 +651,8 @@ class CallMixin:
             c = self.contracts.get(key)
             if c is not None:
                 return self.apply_contract(st, c, args, kwargs, key)
+            if key in getattr(self, "opaque_ok", ()):
+                return Opaque(name + "()")
             raise OutsideSubset(f"constructor of external class {name}")
         info = cv.info
         key = f"{info.module}:{info.name}.__init__"
